@@ -272,7 +272,15 @@ func main() {
 		h.predCases(4000)
 		h.ringOracle("edwards25519", edRingSuite, all, 1)
 		h.ringOracle("dlog", dlogRingSuite, all, 1)
+		h.eddsaReuse(600)
+		h.schnorrPointReuse(16)
+		h.ringReuse("edwards25519", edRingSuite, 600)
+		h.ringReuse("dlog", dlogRingSuite, 300)
 	case o.Thorough:
+		h.eddsaReuse(400)
+		h.schnorrPointReuse(12)
+		h.ringReuse("edwards25519", edRingSuite, 400)
+		h.ringReuse("dlog", dlogRingSuite, 200)
 		h.schnorrReal(8)
 		h.eddsaAll(200, true, 512, 25, 40, 1400, 3)
 		h.predCases(3000)
@@ -281,6 +289,10 @@ func main() {
 		h.sch25519SignCases(60)
 		h.ringDlogCases(all, 1)
 	default:
+		h.eddsaReuse(80)
+		h.schnorrPointReuse(5)
+		h.ringReuse("edwards25519", edRingSuite, 100)
+		h.ringReuse("dlog", dlogRingSuite, 40)
 		h.schnorrReal(2)
 		h.eddsaAll(200, true, 48, 60, 7, 160, 12)
 		h.predCases(300)
